@@ -3,6 +3,7 @@ package exec
 import (
 	"bytes"
 	"fmt"
+	"math"
 	"net"
 	"net/url"
 	"path/filepath"
@@ -88,6 +89,12 @@ func (m *Machine) toGo(v Value, t reflect.Type) (reflect.Value, bool) {
 			return reflect.Value{}, false
 		}
 		return reflect.ValueOf(x.U).Convert(t), true
+	case reflect.Float64, reflect.Float32:
+		x, ok := v.(*sym.Term)
+		if !ok || !x.Const || x.Sort.K != sym.KF64 {
+			return reflect.Value{}, false
+		}
+		return reflect.ValueOf(x.F).Convert(t), true
 	case reflect.Slice:
 		s, ok := v.([]Value)
 		if !ok {
@@ -216,6 +223,15 @@ func init() {
 	reg("net.ParseIP", func(s string) net.IP { return net.ParseIP(s) })
 	reg("(net.IP).To4", func(ip net.IP) net.IP { return ip.To4() })
 	reg("(net.IP).To16", func(ip net.IP) net.IP { return ip.To16() })
+	for name, f := range map[string]func(float64) float64{"math.Log": math.Log, "math.Log10": math.Log10, "math.Log2": math.Log2,
+		"math.Exp": math.Exp, "math.Sqrt": math.Sqrt, "math.Floor": math.Floor, "math.Ceil": math.Ceil, "math.Trunc": math.Trunc, "math.Erf": math.Erf} {
+		reg(name, f)
+	}
+	reg("math.Pow", math.Pow)
+	natives["github.com/dustin/go-humanize.Bytes"] = func(m *Machine, c *frame, fn *ssa.Function, a []Value) Value {
+		return sym.Var(m.freshName("humanized"), sym.StrSort)
+	}
+	natives["github.com/dustin/go-humanize.IBytes"] = natives["github.com/dustin/go-humanize.Bytes"]
 	// strconv
 	reg("strconv.Atoi", strconv.Atoi)
 	reg("strconv.ParseInt", strconv.ParseInt)
